@@ -95,7 +95,23 @@ def gen_sixel():
         raise ExtractError('execute_dcs: sixel hand-off changed')
     if 'let p = caret.get_position();' not in dcs:
         raise ExtractError('execute_dcs: the sixel position is no longer the caret position')
+    # ---- size limits (C03 / C14: no number in the payload sizes an allocation or a loop beyond them)
+    m13 = re.search(r'pub const MAX_SIXEL_SIZE: i32 = (\d[\d_]*);', s)
+    m14 = re.search(r'pub const MAX_SIXEL_COLORS: u32 = (\d[\d_]*);', s)
+    if not m13 or not m14:
+        raise ExtractError('sixel_mod.rs: MAX_SIXEL_SIZE / MAX_SIXEL_COLORS not found (the model follows the size-limited decoder)')
+    pc = fn_body(s, 'parse_char')
+    if 'if self.parsed_numbers.len() < 2 || self.parsed_numbers.len() > 4 || self.parsed_numbers[2..].iter().any(|n| *n > MAX_SIXEL_SIZE) {' not in pc:
+        raise ExtractError('parse_char: the raster attribute guard (numbers beyond MAX_SIXEL_SIZE) changed')
+    if not re.search(r'if let Some\(i\) = self\.parsed_numbers\.first\(\) \{\s*if \*i > MAX_SIXEL_SIZE \{\s*return Err\(ParserError::InvalidPictureSize\.into\(\)\);\s*\}\s*for _ in 0\.\.\*i \{', pc):
+        raise ExtractError('parse_char: the repeat count guard in front of `for _ in 0..*i` changed')
+    if 'if self.parsed_numbers.len() != 5 || self.current_sixel_color >= MAX_SIXEL_COLORS {' not in pc:
+        raise ExtractError('parse_char: the colour register guard changed')
+    if not re.search(r'last_line = self\.height\(\);\s*\}\s*if x_pos >= MAX_SIXEL_SIZE \|\| last_line > MAX_SIXEL_SIZE \{\s*return Err\(ParserError::InvalidPictureSize\.into\(\)\);\s*\}\s*if \(self\.picture_data\.len\(\) as i32\) < last_line \{', tr):
+        raise ExtractError('translate_sixel_to_pixel: the size guard between the height clamp and the row resize changed')
     out = [HEADER, 'namespace IcyVerif.Gen.Sixel\n']
+    out.append(f'/-- `MAX_SIXEL_SIZE`: largest picture width / height in pixels -/\ndef maxSixelSize : Nat := {int(m13.group(1).replace("_", ""))}\n')
+    out.append(f'/-- `MAX_SIXEL_COLORS`: colour registers a stream may define -/\ndef maxSixelColors : Nat := {int(m14.group(1).replace("_", ""))}\n')
     out.append(f'/-- `DOS_DEFAULT_PALETTE.len()` = size of `Palette::default()` -/\ndef defaultPalLen : Nat := {pal_len}\n')
     out.append(f"/-- `'{m1.group(1)}'`: first data character / mask offset -/\ndef firstData : Nat := {ord(m1.group(1))}\n")
     out.append(f'/-- pixel rows per sixel band -/\ndef bandRows : Nat := {int(m3.group(1))}\n')
